@@ -99,6 +99,31 @@ claim("C18", "exploration", "runtime monitor: differential on the real CLI binar
 claim("C29", "exploration", "runtime monitor: exhaustive route x credential x RBAC-configuration matrix against the real warp filters, expectation table parsed from docs/api/openapi.yaml",
       "58 routes (cluster, tenant/SaaS, tenant-admin, raft) x credential kinds (none, 5 wrong forms, viewer, operator, admin, tenant key, each in the documented / all / undocumented header) x RBAC configurations; a request is served only if the credential grants the role the OpenAPI document (not the route code) requires; after every refused request the coordinator / tenant / Raft snapshot is unchanged; a path-template probe cross-checks the route enumeration.", "'/health', '/ready' and the root '/metrics' are defined inline in main.rs and not reachable through library filters; rate limiter off.", "DESIGN §2 C29")
 
+claim("C19", "exploration", "runtime monitor: differential restored vs uninterrupted engine at every cut, through the real JSON codec",
+      "For generated programs (every window kind plain/partitioned, sequences incl. all / .not, named AND / SEQ patterns, joins, distinct, limit, merge, derived chains, watermark-driven programs, variables) and EVERY cut: checkpoint, codec round trip, fresh load + restore, continue; per-step ordered outputs and final variables must equal the uninterrupted run. Signature = stream kind / how / first differing checkpoint component (or not-in-checkpoint).", "No .within (wall clock); pending negations need a wall-clock deadline and are not observable deterministically.", "DESIGN §2 C19, §7")
+claim("C20", "exploration", "runtime monitor: serialize -> deserialize round trip compared through a canonical structural form",
+      "Harvested (random engine states) and synthesised checkpoints with hostile event values (NaN, +-inf, -0.0, deep nesting, unicode, ns timestamps) through codec::serialize(Json) and auto-detecting deserialize; both must succeed, the checkpoint must be equal and restored events equal field by field and timestamp-exact.", "MessagePack codec not enabled in the harness build.", "DESIGN §2 C20")
+claim("C21", "fault_enumeration", "runtime monitor: crash injection (hook H5) at every FileStore operation + op-log oracle",
+      "CheckpointManager over FileStore: histories of <=8 saves, max_checkpoints 1-3, restarts; EVERY file-system operation is a fail-stop crash point, every write also a torn write, 5 corruption kinds of the newest files; recovery must return the last checkpoint whose rename completed (the newest readable one under corruption), never a partial payload, at most max files after each completed checkpoint(), ids increasing across restarts.", "Needs hook H5. 'Unreadable' is decided by load_checkpoint returning Err.", "DESIGN §2 C21")
+claim("C23", "exploration", "runtime monitor: differential reloaded vs non-reloaded / fresh engines at every reload point (routes observed through hook H4)",
+      "Same-program reload at every point must be invisible; with one edit (threshold, step, window, function body, rename) changed streams must equal a fresh engine of the new program from that point, unchanged streams the non-reloaded continuation, and ReloadReport must list changed streams as updated.", "Changed streams with stateful upstream / unchanged streams with changed upstream are not judged (counted).", "DESIGN §2 C23")
+claim("C24", "exploration", "runtime monitor: reference watermark tracker + drop-justification oracle",
+      "Real PerSourceWatermarkTracker under random observe/advance sequences and engine programs with .watermark / .allowed_lateness: per-source watermark never decreases, effective = min over sources, a uid missing from a pass-through consumer is allowed only if ts < wm_eff - max lateness of its consumers (wm_eff from the harness's own model).", "Only the 'only if' direction is judged.", "DESIGN §2 C24")
+claim("C25", "exploration", "runtime monitor: brute-force trend enumeration vs Hamlet / GRETA / engine, alone and co-registered",
+      "Brute-force enumeration of trends for 9 query shapes x 8 modes (Hamlet alone, co-registered shared / non-shared / adaptive, GRETA alone / co, engine alone / co) over all streams up to length 5 and random longer ones; each group's signature is computed from the smallest failing stream per failure kind so the set is deterministic. Almost every group disagrees today (111 known signatures); evidence lists the groups that agree.", "The known-finding list is the whole enumeration that fails today: the check's remaining power is a change of any group's smallest failing stream or a group that newly fails.", "DESIGN §2 C25")
+claim("C30", "exploration", "runtime monitor: token-bucket bound over admitted pairs under the H8 virtual clock",
+      "RateLimiter::check under the virtual clock: for every pair of admitted requests of one client within a tracked episode admitted <= burst + rate x dt (dt bracketed), every Limited carries a finite retry_after, no panic; rates 0-50, bursts 0-20, capacity 1-4 with eviction modelled and cross-checked against client_count().", "Needs hook H8 (process-global clock: single-threaded workload).", "DESIGN §2 C30")
+claim("C32", "exploration", "runtime invariant monitor after every step: enumerated plan/commit phase orders + real handlers against gated mock workers",
+      "Invariant (every Running placement on exactly one registered worker; assigned_pipelines multiset and pipelines_running match) checked after every step of (a) all plan/commit interleavings of up to 3 concurrent deploy/teardown/migrate operations with every task outcome, (b) real warp handlers, drain, failover, rebalance, reconcile, restart against loopback mock workers whose first call can be held open.", "Interleavings beyond triples are sampled.", "DESIGN §2 C32")
+claim("C36", "fault_enumeration", "runtime monitor: crash injection (hook H6) at every RocksDB write + write-level model",
+      "Protocol-legal RaftStorage histories (append, apply, build/install snapshot, purge, conflict delete, vote) on RocksStore; EVERY write index is a fail-stop crash point (subprocess shards, H6 is process-global); after reopen the vote, log, purge position and applied position must equal the model of completed writes and the state the fold of the committed commands up to the applied position.", "Needs hook H6.", "DESIGN §2 C36")
+claim("C37", "exploration", "runtime monitor: offline checker over recorded apply histories of in-process 3-node Raft clusters under a fault matrix",
+      "Real openraft + real MemStore/RocksStore + state machine with a harness network (directed cuts, loss, delay, leader isolation), node stop/restart, tokio paused time: equal applied position => equal state across nodes and time, state = fold of applied entries, every acknowledged write present after faults stop and a barrier write commits within bounded virtual time (else inconclusive).", "Schedules are sampled and not seed-reproducible (openraft's own RNG); no lane over the real HTTP transport; the TLA+ model of the quantifier is out of family.", "DESIGN §2 C37")
+claim("C38", "exploration", "runtime monitor: view == view-after-sync_from_raft after every step on a real single-node Raft, plus a shadow follower",
+      "Histories of API operations through the real handlers and health-loop iterations in main.rs order (asserted against the source text) on a Coordinator with a real single-node Raft and loopback mock workers: after every step re-synchronising from the replicated state must not change the coordinator's view, and a follower that only syncs must show the leader's view.", "No 3-node loopback cluster / black-box binary lane.", "DESIGN §2 C38")
+claim("C45", "exploration", "runtime monitor: conservation + breaker automaton oracle under the H8 virtual clock, sequential exhaustive and concurrent lanes",
+      "ResilientSink over a scripted downstream and a file DLQ: all outcome sequences up to length 8 x thresholds 1-4 x send/send_batch, random longer ones, and concurrent senders with the probe blocked inside the downstream: every uid delivered or dead-lettered as a readable entry naming sink and error; opens after exactly threshold failures, rejects until the reset timeout, exactly one probe while half-open.", "Needs hook H8. Events of a partially failed batch can be both delivered and dead-lettered (counted, not flagged).", "DESIGN §2 C45")
+
 NOT_BUILT = "check not built yet in this session (see DESIGN.md §2 for the planned monitor); nothing is claimed for it"
 
 checks = []
